@@ -119,6 +119,12 @@ Proof. unfold init_state. now intros ->. Qed.
 Lemma forallb_balanced gs : forallb balanced gs = true -> forall g, In g gs -> balanced g = true.
 Proof. intros H g Hg. rewrite forallb_forall in H. now apply H. Qed.
 
+Lemma last_cons_default {A} (p : list A) : forall a b, last (b :: p) a = last p b.
+Proof.
+  induction p as [|c p IH]; intros a b; [reflexivity|].
+  change (last (b :: c :: p) a) with (last (c :: p) a). now rewrite !IH.
+Qed.
+
 Lemma is_path_sound g : forall p a, is_path g a p = true -> path g a p (last p a).
 Proof.
   induction p as [|b p IH]; intros a H; cbn in H.
@@ -126,6 +132,12 @@ Proof.
   - destruct (nth_error g a) as [nd|] eqn:E; [|discriminate].
     apply andb_true_iff in H as [H1 H2]. apply existsb_exists in H1 as (x & Hx & Hb).
     apply Nat.eqb_eq in Hb. subst x.
-    replace (last (b :: p) a) with (last p b) by (destruct p; reflexivity).
+    rewrite last_cons_default.
     econstructor; eauto.
+Qed.
+
+Lemma find_cfg_In name gs g : find_cfg name gs = Some g -> In g gs.
+Proof.
+  induction gs as [|x gs IH]; cbn; [discriminate|].
+  destruct (String.eqb (fname x) name); [intros [= ->]; now left | intros H; right; auto].
 Qed.
